@@ -118,4 +118,194 @@ theorem div64_not_nan (a b : Nat) : F64.isNaN (F64.div a b) = false := by
   apply withSign64_not_nan
   split <;> exact roundPos_le_inf _ _ _
 
+theorem ofBin64_not_nan (neg : Bool) (m : Nat) (e : Int) : F64.isNaN (F64.ofBin neg m e) = false := by
+  unfold Fmt.ofBin
+  apply withSign64_not_nan
+  split <;> exact roundPos_le_inf _ _ _
+
+/-- IEEE subtraction as modelled never yields NaN (finite operands) -/
+theorem sub64_not_nan (a b : Nat) : F64.isNaN (F64.sub a b) = false := by
+  unfold Fmt.sub
+  split
+  · split <;> decide
+  · exact ofBin64_not_nan _ _ _
+
+/-- `x.max(0.0)` of a non-NaN value is not NaN and not negative -/
+theorem max0_nonneg (a : Nat) (ha : F64.isNaN a = false) :
+    F64.isNaN (F64.max a 0) = false ∧ 0 ≤ F64.num (F64.max a 0) := by
+  unfold Fmt.max
+  by_cases h : F64.lt a 0 = true
+  · rw [if_pos h]; decide
+  · rw [if_neg h]
+    refine ⟨ha, ?_⟩
+    have := lt_false_le F64 a 0 ha (by decide) (by simpa using h)
+    have h0 : F64.num 0 = 0 := by decide
+    omega
+
+theorem nz64_props (b : Nat) (hb : F64.isNaN b = false) (hn : 0 ≤ F64.num b) :
+    F64.isNaN (nz64 b) = false ∧ 0 ≤ F64.num (nz64 b) := by
+  unfold nz64
+  split
+  · decide
+  · exact ⟨hb, hn⟩
+
+theorem nz64_not_nan (b : Nat) (hb : F64.isNaN b = false) : F64.isNaN (nz64 b) = false := by
+  unfold nz64
+  split
+  · decide
+  · exact hb
+
+/-- `bpm_multiplier` is `1.0` or a (never NaN) quotient -/
+theorem bpm_multiplier_not_nan (beatLen speed : Nat) : F64.isNaN (difficultyVal beatLen speed).2.1 = false := by
+  unfold difficultyVal
+  simp only []
+  split
+  · exact div64_not_nan _ _
+  · decide
+
+/-! ## `as i32` of a value inside the coordinate limit -/
+
+theorem truncMag32_le (b : Nat) (hm : F32.mag b ≤ 0x48000000) : F32.truncMag b ≤ 131072 := by
+  unfold Fmt.truncMag Fmt.frac
+  have hp : F32.p = 24 := rfl
+  have hem : F32.emin = -126 := rfl
+  simp only [hp, hem]
+  generalize F32.mag b = mg at hm
+  have h23 : (2:Nat) ^ (24 - 1) = 8388608 := by decide
+  rw [h23]
+  by_cases hbe : mg / 8388608 = 0
+  · simp only [hbe, if_true]
+    have : ¬ ((-126 : Int) - ((24:Nat) - 1) ≥ 0) := by omega
+    simp only [this, if_false]
+    have hk : (-((-126 : Int) - ((24:Nat) - 1))).toNat = 149 := by omega
+    rw [hk, Nat.div_eq_of_lt]
+    · omega
+    · have : (2:Nat) ^ 23 ≤ 2 ^ 149 := Nat.pow_le_pow_right (by decide) (by decide)
+      have h23' : (2:Nat) ^ 23 = 8388608 := by decide
+      rw [h23'] at this
+      have : mg % 8388608 < 8388608 := Nat.mod_lt _ (by decide)
+      omega
+  · simp only [hbe, if_false]
+    have hbe2 : mg / 8388608 ≤ 144 := by omega
+    have hneg : ¬ (((mg / 8388608 : Nat) : Int) - 1 + -126 - ((24:Nat) - 1) ≥ 0) := by omega
+    simp only [hneg, if_false]
+    have hk : (-(((mg / 8388608 : Nat) : Int) - 1 + -126 - ((24:Nat) - 1))).toNat = 150 - mg / 8388608 := by omega
+    rw [hk]
+    apply Nat.le_of_lt_succ
+    rw [Nat.div_lt_iff_lt_mul (Nat.two_pow_pos _)]
+    by_cases h144 : mg / 8388608 = 144
+    · rw [h144]
+      have : (2:Nat) ^ (150 - 144) = 64 := by decide
+      rw [this]; omega
+    · have : (2:Nat) ^ 7 ≤ 2 ^ (150 - mg / 8388608) := Nat.pow_le_pow_right (by decide) (by omega)
+      have h7 : (2:Nat)^7 = 128 := by decide
+      rw [h7] at this
+      have : 131073 * 128 ≤ 131073 * 2 ^ (150 - mg / 8388608) := Nat.mul_le_mul_left _ this
+      omega
+
+theorem truncMag64_le (b : Nat) (hm : F64.mag b ≤ 0x4100000000000000) : F64.truncMag b ≤ 131072 := by
+  unfold Fmt.truncMag Fmt.frac
+  have hp : F64.p = 53 := rfl
+  have hem : F64.emin = -1022 := rfl
+  simp only [hp, hem]
+  generalize F64.mag b = mg at hm
+  have h52 : (2:Nat) ^ (53 - 1) = 4503599627370496 := by decide
+  rw [h52]
+  by_cases hbe : mg / 4503599627370496 = 0
+  · simp only [hbe, if_true]
+    have : ¬ ((-1022 : Int) - ((53:Nat) - 1) ≥ 0) := by omega
+    simp only [this, if_false]
+    have hk : (-((-1022 : Int) - ((53:Nat) - 1))).toNat = 1074 := by omega
+    rw [hk, Nat.div_eq_of_lt]
+    · omega
+    · have : (2:Nat) ^ 52 ≤ 2 ^ 1074 := Nat.pow_le_pow_right (by decide) (by decide)
+      have h52' : (2:Nat) ^ 52 = 4503599627370496 := by decide
+      rw [h52'] at this
+      have : mg % 4503599627370496 < 4503599627370496 := Nat.mod_lt _ (by decide)
+      omega
+  · simp only [hbe, if_false]
+    have hbe2 : mg / 4503599627370496 ≤ 1040 := by omega
+    have hneg : ¬ (((mg / 4503599627370496 : Nat) : Int) - 1 + -1022 - ((53:Nat) - 1) ≥ 0) := by omega
+    simp only [hneg, if_false]
+    have hk : (-(((mg / 4503599627370496 : Nat) : Int) - 1 + -1022 - ((53:Nat) - 1))).toNat = 1075 - mg / 4503599627370496 := by omega
+    rw [hk]
+    apply Nat.le_of_lt_succ
+    rw [Nat.div_lt_iff_lt_mul (Nat.two_pow_pos _)]
+    by_cases h1040 : mg / 4503599627370496 = 1040
+    · rw [h1040]
+      have : (2:Nat) ^ (1075 - 1040) = 34359738368 := by decide
+      rw [this]; omega
+    · have : (2:Nat) ^ 36 ≤ 2 ^ (1075 - mg / 4503599627370496) := Nat.pow_le_pow_right (by decide) (by omega)
+      have h36 : (2:Nat)^36 = 68719476736 := by decide
+      rw [h36] at this
+      have : 131073 * 68719476736 ≤ 131073 * 2 ^ (1075 - mg / 4503599627370496) := Nat.mul_le_mul_left _ this
+      omega
+
+theorem toI32_bound (F : Fmt) (b L : Nat) (hf : F.isFinite b = true) (ht : F.truncMag b ≤ L)
+    (hL : L ≤ 2147483647) : -(L : Int) ≤ F.toI32 b ∧ F.toI32 b ≤ L := by
+  have hn : F.isNaN b = false := by
+    unfold Fmt.isFinite at hf
+    unfold Fmt.isNaN
+    simp only [decide_eq_true_eq] at hf
+    simp only [decide_eq_false_iff_not]
+    omega
+  unfold Fmt.toI32
+  simp only [hn, hf, Bool.false_eq_true, if_false, Bool.not_true]
+  cases F.isNeg b <;> simp only [Bool.false_eq_true, if_false, if_true] <;> split <;> (try split) <;> omega
+
+/-- (c) a parsed coordinate, after `as i32`, lies in `[-131072, 131072]` -/
+theorem posOf_bound (s : Str) (v : Int) (h : posOf s = .ok v) : -131072 ≤ v ∧ v ≤ 131072 := by
+  unfold posOf at h
+  cases hp : F32.parseLim s maxCoord32 with
+  | error e => rw [hp] at h; cases h
+  | ok b =>
+    rw [hp] at h
+    injection h with h
+    subst h
+    have hb := parseLim_bounds F32 s maxCoord32 b hp (by decide) (by decide) (by decide) (by decide)
+    have hm : F32.mag maxCoord32 = 0x48000000 := by decide
+    rw [hm] at hb
+    have hfin : F32.isFinite b = true := by
+      unfold Fmt.isFinite
+      have : (0x48000000 : Nat) < F32.infBits := by decide
+      simp only [decide_eq_true_eq]
+      omega
+    exact toI32_bound F32 b 131072 hfin (truncMag32_le b hb.2) (by decide)
+
+theorem coord64_toI32_bound (s : Str) (b : Nat) (hp : F64.parseLim s maxCoord64 = .ok b) :
+    -131072 ≤ F64.toI32 b ∧ F64.toI32 b ≤ 131072 := by
+  have hb := parseLim_bounds F64 s maxCoord64 b hp (by decide) (by decide) (by decide) (by decide)
+  have hm : F64.mag maxCoord64 = 0x4100000000000000 := by decide
+  rw [hm] at hb
+  have hfin : F64.isFinite b = true := by
+    unfold Fmt.isFinite
+    have : (0x4100000000000000 : Nat) < F64.infBits := by decide
+    simp only [decide_eq_true_eq]
+    omega
+  exact toI32_bound F64 b 131072 hfin (truncMag64_le b hb.2) (by decide)
+
+/-- (c) a path point read by `read_point`: before the offset is subtracted both coordinates lie in
+`[-131072, 131072]` -/
+theorem readPoint_bound (v : Str) (ox oy : Int) (c : CP) (h : readPoint v ox oy = .ok c) :
+    (-131072 ≤ c.x + ox ∧ c.x + ox ≤ 131072) ∧ (-131072 ≤ c.y + oy ∧ c.y + oy ≤ 131072) := by
+  unfold readPoint at h
+  match hs : splitC ':' v, h with
+  | [], h => cases h
+  | [_], h => cases h
+  | xs :: ys :: _, h =>
+    simp only [] at h
+    cases hx : F64.parseLim xs maxCoord64 with
+    | error e => rw [hx] at h; cases h
+    | ok x =>
+      cases hy : F64.parseLim ys maxCoord64 with
+      | error e => rw [hx, hy] at h; cases h
+      | ok y =>
+        rw [hx, hy] at h
+        injection h with h
+        subst h
+        have bx := coord64_toI32_bound xs x hx
+        have by' := coord64_toI32_bound ys y hy
+        simp only []
+        omega
+
 end Rosu.DecodeLine
